@@ -1215,6 +1215,8 @@ def r103(ctx: Ctx) -> RuleReport:
     # (b) _make_sort_key
     mk = ctx.repo.func('penman.__main__', '_make_sort_key')
     lookups = [n for n in walk_local(mk.node) if isinstance(n, ast.Assign) and isinstance(n.value, ast.Call) and norm(n.value.func) == 'getattr' and len(n.value.args) >= 2]
+    if len(lookups) != 1 and _r103_pairs_form(ctx, rep, mk):
+        return rep
     if len(lookups) != 1:
         rep.undecided(f'{mk.fq}: each name is looked up on the model with getattr(model, name, None)', mk.loc(), f'{len(lookups)} getattr calls')
         return rep
@@ -1249,6 +1251,66 @@ def r103(ctx: Ctx) -> RuleReport:
         rep.add(f'{mk.fq}: returns (sort function, keyword flags)', mk.loc(r), 'ok' if first_is_func else 'violation',
                 '' if first_is_func else f'returns ({norm(r.value.elts[0])}, {norm(r.value.elts[1])}): the caller unpacks (key, kwargs), so the dict is used as the sort key and the function as **kwargs')
     return rep
+
+
+def _r103_pairs_form(ctx: Ctx, rep: RuleReport, mk: FuncInfo) -> bool:
+    """_make_sort_key written as: names = (key_funcs[k] for k in keys); pairs = [(name, getattr(model, name, None)) for name in names];
+    kwargs = {name: True for name, f in pairs if f is None}; funcs = [f for _, f in pairs if f is not None].  True if recognised (instances added)."""
+    las = ctx.cg.local_assigns(mk)
+    mparam = mk.positional[1] if len(mk.positional) > 1 else 'model'
+    pairs = None
+    for nm, vals in las.items():
+        v = vals[0] if len(vals) == 1 else None
+        if isinstance(v, (ast.ListComp, ast.GeneratorExp)) and len(v.generators) == 1 and not v.generators[0].ifs and isinstance(v.elt, ast.Tuple) and len(v.elt.elts) == 2 \
+                and isinstance(v.elt.elts[1], ast.Call) and norm(v.elt.elts[1].func) == 'getattr' and len(v.elt.elts[1].args) == 3 \
+                and isinstance(v.generators[0].target, ast.Name) and norm(v.elt.elts[0]) == v.generators[0].target.id:
+            pairs = (nm, v)
+    if pairs is None:
+        return False
+    pn, pv = pairs
+    g = pv.elt.elts[1]
+    a0, a1, a2 = (norm(x) for x in g.args)
+    tv = pv.generators[0].target.id
+    good = a0 == mparam and a1 == tv and a2 == 'None'
+    rep.add(f'{mk.fq}: the lookup is getattr(<model>, <method name>, None)', mk.loc(g), 'ok' if good else ('violation' if a1 == mparam else 'undecided'),
+            '' if good else f'getattr({a0}, {a1}, {a2})')
+    # the names come from the key table, in the order of the keys
+    src = pv.generators[0].iter
+    if isinstance(src, ast.Name) and len(las.get(src.id, [])) == 1 and isinstance(las[src.id][0], ast.AST):
+        src = las[src.id][0]
+    kparam, tparam = mk.positional[0], (mk.positional[2] if len(mk.positional) > 2 else 'key_funcs')
+    names_ok = isinstance(src, (ast.GeneratorExp, ast.ListComp)) and len(src.generators) == 1 and not src.generators[0].ifs and norm(src.generators[0].iter) == kparam \
+        and isinstance(src.elt, ast.Subscript) and norm(src.elt.value) == tparam and norm(src.elt.slice) == norm(src.generators[0].target)
+    rep.add(f'{mk.fq}: every key is looked up in the key table, in the order given', mk.loc(pv), 'ok' if names_ok else 'undecided', norm(src)[:70])
+    funcs = flags = None
+    for nm, vals in las.items():
+        v = vals[0] if len(vals) == 1 else None
+        if isinstance(v, (ast.ListComp, ast.DictComp)) and len(v.generators) == 1 and norm(v.generators[0].iter) == pn and isinstance(v.generators[0].target, ast.Tuple) \
+                and len(v.generators[0].target.elts) == 2 and len(v.generators[0].ifs) == 1:
+            n0, f0 = (norm(x) for x in v.generators[0].target.elts)
+            cond = norm(v.generators[0].ifs[0]).replace(' ', '')
+            if isinstance(v, ast.ListComp) and norm(v.elt) == f0:
+                funcs = (v, cond in (f'{f0}isnotNone',), cond in (f'{f0}isNone',))
+            if isinstance(v, ast.DictComp) and norm(v.key) == n0:
+                okv, vv = try_fold(v.value)
+                flags = (v, cond in (f'{f0}isNone',) and okv and vv is True, cond in (f'{f0}isnotNone',) or (okv and vv is not True))
+    if funcs is None or flags is None:
+        rep.undecided(f'{mk.fq}: the pairs are split into sort functions and keyword flags', mk.loc(pv), 'no `[f for _, f in pairs if f is not None]` / `{n: True for n, f in pairs if f is None}`')
+        return True
+    rep.add(f'{mk.fq}: a name that is a method of the model is used as a sort function', mk.loc(funcs[0]), 'ok' if funcs[1] else ('violation' if funcs[2] else 'undecided'),
+            '' if funcs[1] else 'the list keeps the entries for which NO method was found: None is called as a sort function')
+    rep.add(f'{mk.fq}: a name that is not a method becomes a keyword flag with the value True', mk.loc(flags[0]), 'ok' if flags[1] else ('violation' if flags[2] else 'undecided'),
+            '' if flags[1] else 'the flags are set for the names that ARE methods of the model, or not to True')
+    rets = [n for n in walk_local(mk.node) if isinstance(n, ast.Return) and n.value is not None and isinstance(n.value, ast.Tuple) and len(n.value.elts) == 2]
+    if rets:
+        r = rets[0]
+        e0 = r.value.elts[0]
+        first_is_func = any(f.parent is mk and f.name == norm(e0) for f in ctx.repo.all_functions()) or \
+            (isinstance(e0, ast.Call) and norm(e0.func) in ('partial', 'functools.partial') and len(e0.args) == 2 and isinstance(e0.args[1], ast.Name)
+             and any(isinstance(v_, ast.AST) and v_ is funcs[0] for v_ in las.get(e0.args[1].id, [])))
+        second_is_flags = isinstance(r.value.elts[1], ast.Name) and any(v_ is flags[0] for v_ in las.get(r.value.elts[1].id, []))
+        rep.add(f'{mk.fq}: returns (sort function, keyword flags)', mk.loc(r), 'ok' if first_is_func and second_is_flags else 'undecided', norm(r.value)[:70])
+    return True
 
 
 # ---------------------------------------------------------------------------------------------
@@ -1420,6 +1482,19 @@ def r105(ctx: Ctx) -> RuleReport:
     main = ctx.repo.func(M_, 'main')
     pmm = ctx.repo.parent_map(main.node)
     pcalls = [c for c, ts in ctx.cg.calls_in(main) if any(t.kind == 'func' and t.func is pr for t in ts)]
+    # a wrapper that only returns process(<its argument>, ...) stands for process at its call sites
+    wrappers = []
+    for f_ in ctx.repo.all_functions():
+        if f_.module.name != M_ or f_ is pr or f_ is main:
+            continue
+        body_ = [x for x in f_.node.body if not (isinstance(x, ast.Expr) and isinstance(x.value, ast.Constant))]
+        if len(body_) == 1 and isinstance(body_[0], ast.Return) and isinstance(body_[0].value, ast.Call) and f_.positional \
+                and any(t.kind == 'func' and t.func is pr for t in ctx.cg.resolve_call(body_[0].value, f_)) \
+                and body_[0].value.args and norm(body_[0].value.args[0]) == f_.positional[0]:
+            wrappers.append(f_)
+    if wrappers:
+        pcalls = [c for c in pcalls if not any(any(x is c for x in ast.walk(w.node)) for w in wrappers)]
+        pcalls += [c for c, ts in ctx.cg.calls_in(main) if any(t.kind == 'func' and t.func in wrappers for t in ts)]
     exit_args = [c.args[0] for c in walk_local(main.node) if isinstance(c, ast.Call) and norm(c.func) == 'sys.exit' and c.args and isinstance(c.args[0], ast.Name)]
     sv = exit_args[0].id if exit_args else None
     for c in pcalls:
